@@ -25,7 +25,17 @@ VERIF = os.path.dirname(os.path.dirname(os.path.abspath(__file__)))
 REPO = os.environ.get("H2_REPO", "/repo")
 COQ = os.path.join(VERIF, "coq")
 BUILD = os.path.join(VERIF, ".build")
-CASES = os.path.join(BUILD, "cases")
+# per process: several checks may run at the same time (different properties share case tags such as "dispatch" or "sendflow")
+CASES = os.path.join(BUILD, "cases", "p%d" % os.getpid())
+
+
+def _cleanup_cases():
+    import shutil as _sh
+    _sh.rmtree(CASES, ignore_errors=True)
+
+
+import atexit as _atexit
+_atexit.register(_cleanup_cases)
 REPLAYS = os.path.join(VERIF, "replays")
 EVIDENCE = os.path.join(VERIF, "evidence")
 HARNESS = os.path.join(VERIF, "harness")
